@@ -81,6 +81,20 @@ def reflect_plans(rng):
 PWN_TAILS = ["", "", '"+str(PWNED())+"', "'+str(PWNED())+'", '\rj"+PWNED())): #', "\\"]
 
 
+class _Padded:
+    """a program whose rendering is preceded by a long banner comment (everything else is delegated)"""
+
+    def __init__(self, prog, pad):
+        self._p, self._pad = prog, pad
+
+    def __getattr__(self, name):
+        return getattr(self._p, name)
+
+
+def rtext(v):
+    return (v._pad + gen.render(v._p)) if isinstance(v, _Padded) else gen.render(v)
+
+
 class Sentinel:
     def __init__(self):
         self.calls = 0
@@ -217,7 +231,13 @@ def run_batch(ctx, n, with_model=True):
             variants = [prog] + [subst_program(prog, rng) for _ in range(4)]
             plan.append(variants)
         plan += reflect_plans(rng)
-        reqs = [{"op": "run", "text": gen.render(v), "envs": []} for vs in plan for v in vs]
+        # the same substitution games inside a source of more than 64 KiB (a pre-pass or buffer that only exists for big sources)
+        pad = "/* " + "banner line\n" * 6000 + " */\n"
+        big = []
+        for variants in plan[:12]:
+            big.append([_Padded(v, pad) for v in variants])
+        plan += big
+        reqs = [{"op": "run", "text": rtext(v), "envs": []} for vs in plan for v in vs]
         models = [None] * len(reqs)
         if with_model and ctx.driver_ok:
             try:
@@ -228,7 +248,7 @@ def run_batch(ctx, n, with_model=True):
         for variants in plan:
             skeletons = []
             for v in variants:
-                text = gen.render(v)
+                text = rtext(v)
                 m = models[mi]; mi += 1
                 ctx.case(text, True, sample={"text": text[:300]})
                 try:
@@ -293,8 +313,8 @@ def run_batch(ctx, n, with_model=True):
             for v, sk in zip(variants[1:], skeletons[1:]):
                 ctx.count("substitutions")
                 if sk is not None and base is not None and sk != base:
-                    ctx.violation(f"substituting string literals changes the structure of the generated program: {gen.render(v)[:200]!r}",
-                                  {"base": gen.render(variants[0]), "variant": gen.render(v)})
+                    ctx.violation(f"substituting string literals changes the structure of the generated program: {rtext(v)[:200]!r}",
+                                  {"base": rtext(variants[0]), "variant": rtext(v)})
         # reader tie (batched)
         if with_model and ctx.driver_ok and reader_jobs:
             try:
